@@ -495,8 +495,8 @@ class C04(Check):
             first_open = next((t for t, v in rows if v[0] == 1), None)
             if first_open != r:
                 # a premise at the start of the simulation is a different input class (first rule timestep) than the
-                # known finding (a solve between the instant and the rule timestep): it gets its own key
-                failures.append(Failure("rule-eq-premise-at-start-missed" if c == 0 else "rule-eq-premise-missed",
+                # known finding (a solve between the instant and the rule timestep) when NO solve lies in between: it gets its own key
+                failures.append(Failure("rule-eq-premise-at-start-missed" if (c == 0 and at is None) else "rule-eq-premise-missed",
                                         "rule `IF %s = %d` (rule step %d, hydraulic step %d%s): must act at the rule timestep %d, observed %s"
                                         % ("SYSTEM TIME" if kind == "sim" else "SYSTEM CLOCKTIME", c if kind == "sim" else (c + sc) % 86400, rule, hyd,
                                            ", simple control at %d" % at if at is not None else "", r, "never" if first_open is None else "at %d" % first_open),
